@@ -407,4 +407,109 @@ theorem c02_supply (cfg : Cfg) (D : String) (F : Nat) (pid : Int) (route : List 
   | hypIgp i c => exact ⟨by intro m hm a d n e; subst e; simp at hm, by rintro ⟨a, d, n, hm⟩; simp at hm⟩
   | internal dst hne => exact ⟨by intro m hm a d n e; subst e; simp at hm, by rintro ⟨a, d, n, hm⟩; simp at hm⟩
 
+
+/-! ### bystanders and supply, from the replay -/
+
+/-- Does a move name this account (as source or destination)? -/
+def touches (a : Addr) : Move → Prop
+  | .xfer s d _ _ => a = s ∨ a = d
+  | .burn s _ _ => a = s
+  | .mint d _ _ => a = d
+
+/-- An account that no move names keeps every balance. -/
+theorem replay_bystander (ms : List Move) (l l' : Ledger) (h : l.replay ms = some l') (a : Addr)
+    (hna : ∀ m ∈ ms, ¬ touches a m) : ∀ d, l'.bal a d = l.bal a d := by
+  induction ms generalizing l with
+  | nil => simp only [Ledger.replay, List.foldlM_nil, Option.pure_def, Option.some.injEq] at h; subst h; intro d; rfl
+  | cons m rest ih =>
+    simp only [Ledger.replay, List.foldlM_cons] at h
+    cases hm : l.apply m with
+    | none => simp [hm] at h
+    | some l1 =>
+      simp only [hm, Option.bind_eq_bind, Option.bind_some] at h
+      intro d
+      rw [ih l1 h (fun x hx => hna x (List.mem_cons_of_mem _ hx)) d]
+      have hnm := hna m List.mem_cons_self
+      cases m with
+      | xfer s dd dn n =>
+        simp only [Ledger.apply] at hm
+        simp only [touches, not_or] at hnm
+        rw [Ledger.send_bal hm a d]
+        simp [hnm.1, hnm.2]
+      | burn s dn n =>
+        simp only [Ledger.apply] at hm
+        simp only [touches] at hnm
+        rw [Ledger.burn_bal hm a d]
+        simp [hnm]
+      | mint dd dn n =>
+        simp only [Ledger.apply, Option.some.injEq] at hm
+        subst hm
+        simp only [touches] at hnm
+        rw [Ledger.mint_bal]
+        simp [hnm]
+
+theorem burn_supply {l l' : Ledger} {src : Addr} {d : String} {amt : Nat} (h : l.burn src d amt = some l') (dn : String) :
+    l'.supply dn = if dn = d then l.supply d - amt else l.supply dn := by
+  unfold Ledger.burn at h
+  split at h
+  · cases h
+  · simp only [Option.some.injEq] at h; subst h; rfl
+
+/-- A replay without burns and mints leaves every supply as it was. -/
+theorem replay_supply_unchanged (ms : List Move) (l l' : Ledger) (h : l.replay ms = some l')
+    (hx : ∀ m ∈ ms, ∃ s d dn n, m = .xfer s d dn n) : l'.supply = l.supply := by
+  induction ms generalizing l with
+  | nil => simp only [Ledger.replay, List.foldlM_nil, Option.pure_def, Option.some.injEq] at h; subst h; rfl
+  | cons m rest ih =>
+    simp only [Ledger.replay, List.foldlM_cons] at h
+    cases hm : l.apply m with
+    | none => simp [hm] at h
+    | some l1 =>
+      simp only [hm, Option.bind_eq_bind, Option.bind_some] at h
+      rw [ih l1 h (fun x hx' => hx x (List.mem_cons_of_mem _ hx'))]
+      obtain ⟨s, d, dn, n, rfl⟩ := hx m List.mem_cons_self
+      simp only [Ledger.apply] at hm
+      exact Ledger.send_supply hm
+
+/-- **Bystanders.** After a successful orbiter transfer, an account that is none of: the channel's escrow
+account, the orbiter account, the dust collector, a fee recipient, an account of the outgoing route — keeps
+every balance it had. -/
+theorem c02_bystanders (cfg : Cfg) (π : OneofOrder) (φ : Faults) (w : World) (pkt : Packet) (t : TransferAttrs) (p : Payload)
+    (hs : (ibcRecv (appWiring cfg π) φ w pkt).ack.isSuccess = true) (ha : adaptPacket (appWiring cfg π) pkt = .ok (.orbiter t p))
+    (a : Addr) (hna : ∀ m ∈ (ibcRecv (appWiring cfg π) φ w pkt).ctx.moves, ¬ touches a m) (d : String) :
+    (ibcRecv (appWiring cfg π) φ w pkt).ctx.bank.bal a d = w.bank.bal a d := by
+  obtain ⟨_, _, _, _, _, _, _, hrep, _⟩ := c02_conservation cfg π φ w pkt t p hs ha
+  exact replay_bystander _ _ _ hrep a hna d
+
+/-- **Supply.** On the Hyperlane and internal routes the total supply of every denomination is unchanged. -/
+theorem c02_supply_unchanged_without_cctp (cfg : Cfg) (π : OneofOrder) (φ : Faults) (w : World) (pkt : Packet) (t : TransferAttrs) (p : Payload)
+    (hs : (ibcRecv (appWiring cfg π) φ w pkt).ack.isSuccess = true) (ha : adaptPacket (appWiring cfg π) pkt = .ok (.orbiter t p))
+    (f : Forwarding) (hf : p.forwarding = some f) (hne : f.protocolId ≠ PROTOCOL_CCTP) :
+    (ibcRecv (appWiring cfg π) φ w pkt).ctx.bank.supply = w.bank.supply := by
+  obtain ⟨credits, F, f', route, hf', hroute, hmoves, hrep, _⟩ := c02_conservation cfg π φ w pkt t p hs ha
+  rw [hf] at hf'
+  simp only [Option.some.injEq] at hf'
+  subst hf'
+  apply replay_supply_unchanged _ _ _ hrep
+  intro m hm
+  rw [hmoves] at hm
+  simp only [List.mem_append, List.mem_singleton] at hm
+  rcases hm with ((hm | hm) | hm) | hm
+  · unfold sweepMoves at hm
+    split at hm
+    · cases hm
+    · simp only [List.mem_singleton] at hm; exact ⟨_, _, _, _, hm⟩
+  · exact ⟨_, _, _, _, hm⟩
+  · simp only [feeMoves, List.mem_map] at hm
+    obtain ⟨v, _, rfl⟩ := hm
+    exact ⟨_, _, _, _, rfl⟩
+  · generalize hpid : f.protocolId = pid at hroute hne
+    cases hroute with
+    | cctp => exact absurd rfl hne
+    | hyp => simp only [List.mem_singleton] at hm; exact ⟨_, _, _, _, hm⟩
+    | hypIgp i c =>
+      simp only [List.mem_cons, List.mem_nil_iff, or_false] at hm
+      rcases hm with hm | hm <;> exact ⟨_, _, _, _, hm⟩
+    | internal dst hne' => simp only [List.mem_singleton] at hm; exact ⟨_, _, _, _, hm⟩
+
 end Orbiter.C02
